@@ -637,4 +637,133 @@ theorem drawLines_congr (m m' : TextMode) (h1 : m.hard = m'.hard) (h2 : m.ell = 
 def buttonStyle (md hv fc : Bool) (a b c d : Nat) : Nat := if md then a else if hv then b else if fc then c else d
 
 
+/-! ### `for cond { … }` and TextField -/
+
+/-- a `for cond { … }` loop as a pure iteration: `none` = the fuel ran out (the Go loop would not end) -/
+def iterW {α : Type} (p : α → Bool) (g : α → Step α) : Nat → α → Option (Step α)
+  | 0, _ => none
+  | f + 1, a =>
+    if p a then
+      match g a with
+      | .next a' => iterW p g f a'
+      | .brk a' => some (.next a')
+      | s => some s
+    else some (.next a)
+
+def resW {α : Type} (mk : α → M) : Option (Step α) → Res
+  | none => .error (.stuck "loop does not end")
+  | some s => s.toRes mk
+
+theorem loopW_iterW {α : Type} (R : Ro) (body : St) (n : Nat) (c : Ex) (mk : α → M) (p : α → Bool) (g : α → Step α)
+    (hc : ∀ a, evalE R (mk a).ρ c = .ok (.bool (p a)))
+    (hb : ∀ a, p a = true → leave n (exec R body (mk a)) = (g a).toRes mk) :
+    ∀ (fuel : Nat) (a : α), loopW R body n c fuel (mk a) = resW mk (iterW p g fuel a) := by
+  intro fuel
+  induction fuel with
+  | zero => intro a; simp [loopW, iterW, resW]
+  | succ f ih =>
+    intro a
+    rw [loopW, hc]
+    cases hp : p a with
+    | false => simp [iterW, hp, resW, Step.toRes]
+    | true =>
+      simp only [iterW, hp, if_true]
+      rw [hb a hp]
+      cases hg : g a with
+      | next a' => simp only [Step.toRes]; exact ih a'
+      | brk a' => simp [Step.toRes, resW]
+      | ret a' v => simp [Step.toRes, resW]
+      | err e => simp [Step.toRes, resW]
+
+/-- one character of TextField's row: `s.WriteCell(col, 0, Cell{Character: char, Style: tf.Style}); col += uint16(char.Width)` -/
+def fieldStep (st : Nat) (a : UInt16 × Surface) (ch : Cell) : Step (UInt16 × Surface) :=
+  match writeCell exactA a.2 a.1 0 (restyle st ch) with
+  | .error p => .err (.panic p)
+  | .ok s' => .next (a.1 + u16 ch.w, s')
+
+theorem lineWidth_append (a b : List Cell) : lineWidth (a ++ b) = lineWidth a + lineWidth b := by
+  induction a with
+  | nil => simp [lineWidth]
+  | cons c r ih => simp [lineWidth, ih, UInt16.add_assoc]
+
+theorem foldS_fieldStep (st : Nat) : ∀ (l : List Cell) (col : UInt16) (s : Surface),
+    (∃ s', foldS (fieldStep st) l (col, s) = .next (col + lineWidth l, s') ∧ fieldLoop exactA (l.map (restyle st)) col s = .ok s') ∨
+    (∃ p, foldS (fieldStep st) l (col, s) = .err (.panic p) ∧ fieldLoop exactA (l.map (restyle st)) col s = .error p) := by
+  intro l
+  induction l with
+  | nil => intro col s; exact .inl ⟨s, by simp [foldS, lineWidth], by simp [fieldLoop]⟩
+  | cons ch r ih =>
+    intro col s
+    cases hw : writeCell exactA s col 0 (restyle st ch) with
+    | error p => exact .inr ⟨p, by simp [foldS, fieldStep, hw], by simp [fieldLoop, hw]⟩
+    | ok s' =>
+      have hwd : u16 (restyle st ch).w = u16 ch.w := rfl
+      rcases ih (col + u16 ch.w) s' with ⟨s'', h1, h2⟩ | ⟨p, h1, h2⟩
+      · exact .inl ⟨s'', by simp [foldS, fieldStep, hw, h1, lineWidth, UInt16.add_assoc], by simp [fieldLoop, hw, hwd, h2]⟩
+      · exact .inr ⟨p, by simp [foldS, fieldStep, hw, h1], by simp [fieldLoop, hw, hwd, h2]⟩
+
+theorem fieldLoop_append : ∀ (a b : List Cell) (col : UInt16) (s : Surface),
+    fieldLoop exactA (a ++ b) col s =
+      match fieldLoop exactA a col s with
+      | .error p => .error p
+      | .ok s' => fieldLoop exactA b (col + lineWidth a) s' := by
+  intro a
+  induction a with
+  | nil => intro b col s; simp [fieldLoop, lineWidth]
+  | cons c r ih =>
+    intro b col s
+    simp only [List.cons_append, fieldLoop]
+    cases writeCell exactA s col 0 c with
+    | error p => rfl
+    | ok s' => simp only []; rw [ih]; simp [lineWidth, UInt16.add_assoc]
+
+/-- the state of TextField's grapheme loop: last cluster (v4), remaining clusters (v5), graphemes counted (v2), column (v3),
+surface (v1), uniseg state (v6) -/
+abbrev TFSt := Val × List (List Cell) × Int × UInt16 × Surface × Int
+
+/-- `len(rest) > 0` -/
+def tfMore (a : TFSt) : Bool := !a.2.1.isEmpty
+
+/-- one grapheme cluster: its characters written, `i += 1` -/
+def tfStep (st : Nat) (a : TFSt) : Step TFSt :=
+  match a.2.1 with
+  | [] => .next a
+  | cl :: r =>
+    match foldS (fieldStep st) cl (a.2.2.2.1, a.2.2.2.2.1) with
+    | .next (col', s') => .next (.strOf cl, r, a.2.2.1 + 1, col', s', 0)
+    | .err e => .err e
+    | _ => .err (.stuck "impossible")
+
+theorem lineWidth_restyle (st : Nat) (l : List Cell) : lineWidth (l.map (restyle st)) = lineWidth l := by
+  induction l with
+  | nil => rfl
+  | cons c r ih => simp [lineWidth, restyle, ih]
+
+theorem iterW_tf (st : Nat) : ∀ (rest : List (List Cell)) (fuel : Nat) (v4 : Val) (i : Int) (col : UInt16) (s : Surface) (s6 : Int),
+    rest.length < fuel →
+    (∃ v4' i' col' s' s6', iterW tfMore (tfStep st) fuel (v4, rest, i, col, s, s6) = some (.next (v4', [], i', col', s', s6')) ∧
+        fieldLoop exactA (rest.flatten.map (restyle st)) col s = .ok s') ∨
+    (∃ p, iterW tfMore (tfStep st) fuel (v4, rest, i, col, s, s6) = some (.err (.panic p)) ∧
+        fieldLoop exactA (rest.flatten.map (restyle st)) col s = .error p) := by
+  intro rest
+  induction rest with
+  | nil =>
+    intro fuel v4 i col s s6 hf
+    cases fuel with
+    | zero => omega
+    | succ f => exact .inl ⟨v4, i, col, s, s6, by simp [iterW, tfMore], by simp [fieldLoop]⟩
+  | cons cl r ih =>
+    intro fuel v4 i col s s6 hf
+    cases fuel with
+    | zero => simp at hf
+    | succ f =>
+      have hf' : r.length < f := by simpa using hf
+      simp only [List.flatten_cons, List.map_append, fieldLoop_append, lineWidth_restyle]
+      rcases foldS_fieldStep st cl col s with ⟨s', h1, h2⟩ | ⟨p, h1, h2⟩
+      · rcases ih f (.strOf cl) (i + 1) (col + lineWidth cl) s' 0 hf' with ⟨a1, a2, a3, a4, a5, g1, g2⟩ | ⟨p, g1, g2⟩
+        · exact .inl ⟨a1, a2, a3, a4, a5, by simp [iterW, tfMore, tfStep, h1, g1], by rw [h2]; exact g2⟩
+        · exact .inr ⟨p, by simp [iterW, tfMore, tfStep, h1, g1], by rw [h2]; exact g2⟩
+      · exact .inr ⟨p, by simp [iterW, tfMore, tfStep, h1], by rw [h2]⟩
+
+
 end VaxisModel.Lemmas.SurfExec
